@@ -223,6 +223,12 @@ func (tree *ParserT) parseObject(exec bool) ([]rune, *primitives.DataType, error
 			o.stage++
 
 		case '\n':
+			if !o.IsKeyUndefined() && o.IsValueUndefined() {
+				// JSON allows a line break between a key, its colon and its
+				// value: it only separates pairs once the value is known
+				tree.crLf()
+				continue
+			}
 			err := o.WriteKeyValuePair()
 			if err != nil {
 				return nil, nil, err
